@@ -352,7 +352,14 @@ func build(tier string) []*vexp.Scenario {
 		bounds = []int{0, 1, 2}
 	}
 	var out []*vexp.Scenario
-	add := func(p params) { out = append(out, scenario(p, bounds)) }
+	fineBounds := []int{0, 1}
+	add := func(p params) {
+		out = append(out, scenario(p, bounds))
+		// hybrid variant for the mixed tree: preemption at the lock / atomic operations of packages actor and mailbox
+		if p.shape == "mixed" && !p.poison {
+			out = append(out, vexp.Fine(scenario(p, fineBounds), "vivid/internal/actor.", "vivid/internal/mailbox."))
+		}
+	}
 	shapeNames := []string{"single", "chain3", "fan", "mixed"}
 	for _, sh := range shapeNames {
 		for _, target := range shapes[sh] {
